@@ -30,7 +30,7 @@ Print Assumptions C16_default_strip_is_one.
 
 Theorem C16_old_name_iff_it_exists :
   forall fs ov fp o n,
-  pf_old fp = Some o -> pf_new fp = Some n -> o <> n -> has_dotdot o = false ->
+  kold fp = Some o -> knew fp = Some n -> o <> n -> has_dotdot o = false ->
   choose_filename fs ov fp =
   ROk (if match ov_get o ov with
           | Some m => negb (deleted m)
@@ -41,8 +41,8 @@ Print Assumptions C16_old_name_iff_it_exists.
 
 Theorem C16_single_name :
   forall fs ov fp x,
-  (pf_old fp = Some x /\ pf_new fp = None) \/ (pf_old fp = None /\ pf_new fp = Some x) \/
-  (pf_old fp = Some x /\ pf_new fp = Some x) ->
+  (kold fp = Some x /\ knew fp = None) \/ (kold fp = None /\ knew fp = Some x) \/
+  (kold fp = Some x /\ knew fp = Some x) ->
   choose_filename fs ov fp = ROk x.
 Proof. exact choose_single_name. Qed.
 Print Assumptions C16_single_name.
